@@ -174,7 +174,7 @@ def run_C05(ctx):
             key, iv = rb(ctx.rng, 16), rb(ctx.rng, ivlen(mode, bs))
             c = Case("cts", mode, bs, w, key, iv)
             for L in cts_lengths(ctx.rng, bs, w, ctx.thorough and bs <= 24):
-                op = ctx.rng.choice(["enc", "dec", "encb", "decb"])
+                op = ctx.rng.choice(["enc", "dec", "encb", "decb", "encio", "decio", "enciob", "deciob"])
                 if op.endswith("b"):
                     c.ops.append(f"{op} {hx(rb(ctx.rng, L))} {hx(rb_nz(ctx.rng, L))}")
                 else:
@@ -442,7 +442,7 @@ def run_C13(ctx):
             c = Case("cts", mode, bs, w, key, iv, cls_kind="cts-short")
             ls = sorted(set([0, 1, bs // 2, bs - 1, bs, bs + 1, 2 * bs] + [rng.randrange(0, bs) for _ in range(2)]))
             for L in ls:
-                op = rng.choice(["enc", "dec", "encb", "decb"])
+                op = rng.choice(["enc", "dec", "encb", "decb", "encio", "decio", "enciob", "deciob"])
                 if op.endswith("b"):
                     c.ops.append(f"{op} {hx(rb(rng, L))} {hx(rb_nz(rng, L))}")
                 else:
@@ -454,8 +454,8 @@ def run_C13(ctx):
                     c.ops.append(f"{rng.choice(['encb', 'decb'])} {hx(rb(rng, L))} {hx(rb_nz(rng, L2))}")
             c.ops.append(f"newslice 16 {ivlen(mode, bs)}")
             for _ in range(2):
-                kl = rng.choice([0, 15, 16, 17, 32])
-                il = rng.choice([0, bs - 1, bs, bs + 1, 2 * bs]) if not mode.startswith("ecb") else 0
+                kl = rng.choice([0, 15, 16, 16, 16, 17, 32])
+                il = rng.choice([0, 1, bs // 2, bs - 1, bs, bs + 1, 2 * bs]) if not mode.startswith("ecb") else 0
                 c.ops.append(f"newslice {kl} {il}")
             cases.append(c)
     # block modes: unequal b2b, padded decrypt of a non-multiple, slice constructors, zero-length messages
@@ -482,7 +482,8 @@ def run_C13(ctx):
             il0 = ivlen(mode, bs)
             c.ops.append(f"newslice 16 {il0}")
             for _ in range(3):
-                c.ops.append(f"newslice {rng.choice([0, 1, 15, 16, 17, 24, 32])} {rng.choice([0, bs - 1, bs, bs + 1, 2 * bs, 2 * bs + 1, il0])}")
+                c.ops.append(f"newslice {rng.choice([0, 1, 15, 16, 16, 16, 16, 17, 24, 32])} "
+                             f"{rng.choice([0, 1, bs // 2, bs - 1, bs, bs + 1, 2 * bs - 1, 2 * bs, 2 * bs + 1, 3 * bs, il0])}")
             c.ops.append(f"block {hx(rb(rng, mbs))}")
             c.ops.append("ivstate")
             cases.append(c)
